@@ -637,4 +637,223 @@ theorem desc_hi_number (ds : List UInt8) (hne : ds ≠ []) (hd : ∀ d ∈ ds, i
 
 end Scan
 
+section History
+open Pen
+
+theorem copyAttrSelf_drops_rgb8 (p : Pen) (a : PenAttr) (h : p.hasColourAttrRgb8 a = true) :
+    (p.copyAttrSelf a).hasColourAttrRgb8 a = false := by
+  cases a <;> simp_all [Pen.copyAttrSelf, Pen.hasColourAttrRgb8, PenAttr.type, Pen.setColourAttr]
+
+theorem abs_rgb (p : Pen) (a : PenAttr) (h : p.hasColourAttrRgb8 a = true) :
+    p.abs.read a = .c (p.getColourAttr a) (some (p.getColourAttrRgb8 a)) := by
+  rw [abs_read]
+  cases a <;> simp_all [Pen.typedRead, Pen.hasColourAttrRgb8, PenAttr.type]
+
+theorem abs_copyAttrSelf_ne (p : Pen) (a : PenAttr) (h : p.hasColourAttrRgb8 a = true) :
+    (p.copyAttrSelf a).abs ≠ PenDict.copyAttr p.abs p.abs a := by
+  intro he
+  have h1 := congrFun he a
+  have h2 := copyAttrSelf_drops_rgb8 p a h
+  have h3 : (p.copyAttrSelf a).abs.read a = (PenDict.copyAttr p.abs p.abs a).read a := by
+    simp [PenDict.read, h1]
+  rw [abs_read] at h3
+  simp [PenDict.copyAttr, PenDict.read, PenDict.set] at h3
+  have h4 := abs_rgb p a h
+  simp [PenDict.read] at h4
+  rw [h4] at h3
+  cases a <;> simp_all [Pen.typedRead, PenAttr.type, Pen.hasColourAttrRgb8]
+
+
+/-! ### Histories -/
+
+/-- The operations of a history over pens numbered by `Nat`. -/
+inductive PenOp
+  | setBool (i : Nat) (a : PenAttr) (v : Bool)
+  | setInt (i : Nat) (a : PenAttr) (v : Int)
+  | setColour (i : Nat) (a : PenAttr) (v : Int)
+  | setRgb8 (i : Nat) (a : PenAttr) (v : RGB8)
+  | clearAttr (i : Nat) (a : PenAttr)
+  | clear (i : Nat)
+  | copy (dst src : Nat) (overwrite : Bool)
+  | copyAttr (dst src : Nat) (a : PenAttr)
+  | clone (dst src : Nat)
+  | desc (i : Nat) (a : PenAttr) (s : List UInt8)
+
+def upd {α} (f : Nat → α) (i : Nat) (v : α) : Nat → α := fun k => if k = i then v else f k
+
+/-- The model: the functions of pen.c, with the aliased forms when source and destination coincide. -/
+def PenOp.run (sc : Scanf) (st : Nat → Pen) : PenOp → (Nat → Pen)
+  | .setBool i a v => upd st i ((st i).setBoolAttr a v)
+  | .setInt i a v => upd st i ((st i).setIntAttr a v)
+  | .setColour i a v => upd st i ((st i).setColourAttr a v)
+  | .setRgb8 i a v => upd st i ((st i).setColourAttrRgb8 a v)
+  | .clearAttr i a => upd st i ((st i).clearAttr a)
+  | .clear i => upd st i (st i).clear
+  | .copy d s ow => if d = s then st else upd st d ((st d).copy (st s) ow)
+  | .copyAttr d s a => upd st d (if d = s then (st d).copyAttrSelf a else (st d).copyAttr (st s) a)
+  | .clone d s => upd st d (st s).clone
+  | .desc i a s => upd st i (setColourAttrDesc sc (st i) a s).2
+
+/-- The specification: the same history on dictionaries.  A stored value is the value reduced into the
+    attribute's bit-field (the value itself when representable); a description is what `descParse` extracts. -/
+def PenOp.spec (sc : Scanf) (st : Nat → PenDict) : PenOp → (Nat → PenDict)
+  | .setBool i a v => upd st i ((st i).setBool a v)
+  | .setInt i a v => upd st i ((st i).setInt a (store a.width a.signed v))
+  | .setColour i a v => upd st i ((st i).setColour a (store a.width a.signed v))
+  | .setRgb8 i a v => upd st i ((st i).setRgb8 a v)
+  | .clearAttr i a => upd st i ((st i).erase a)
+  | .clear i => upd st i PenDict.empty
+  | .copy d s ow => upd st d (PenDict.copy (st d) (st s) ow)
+  | .copyAttr d s a => upd st d (PenDict.copyAttr (st d) (st s) a)
+  | .clone d s => upd st d (st s)
+  | .desc i a s =>
+    match descParse sc s with
+    | none => st
+    | some (idx, none) => upd st i ((st i).setColour a (store a.width a.signed idx))
+    | some (idx, some rgb) => upd st i (((st i).setColour a (store a.width a.signed idx)).setRgb8 a rgb)
+
+/-- The one trigger of the known defect: `copy_attr(p, p, a)` on a pen whose `a` carries an RGB8. -/
+def PenOp.SelfCopyAttrWithRgb8 (st : Nat → Pen) : PenOp → Prop
+  | .copyAttr d s a => d = s ∧ (st d).hasColourAttrRgb8 a = true
+  | _ => False
+
+theorem dict_copy_self (d : PenDict) (ow : Bool) : PenDict.copy d d ow = d := by
+  funext x; unfold PenDict.copy; cases h : d x <;> simp
+
+theorem abs_copyAttrSelf (p : Pen) (a : PenAttr) (hp : p.WF) (h : p.hasColourAttrRgb8 a = false) :
+    (p.copyAttrSelf a).abs = PenDict.copyAttr p.abs p.abs a := by
+  have hc := abs_copyAttr p p a hp
+  have : p.copyAttrSelf a = p.copyAttr p a := by
+    unfold Pen.copyAttrSelf Pen.copyAttr
+    split
+    · rfl
+    · rfl
+    · simp only [h]
+      have : (p.setColourAttr a (p.getColourAttr a)).hasColourAttrRgb8 a = false := by
+        cases a <;> simp [Pen.setColourAttr, Pen.hasColourAttrRgb8] <;> simpa [Pen.hasColourAttrRgb8] using h
+      simp [this]
+  rw [this]; exact hc
+
+theorem wf_copyAttrSelf (p : Pen) (a : PenAttr) (h : p.WF) : (p.copyAttrSelf a).WF := by
+  unfold Pen.copyAttrSelf
+  split
+  · exact wf_setBoolAttr _ _ _ h
+  · exact wf_setIntAttr _ _ _ h
+  · simp only
+    split
+    · exact wf_setColourAttrRgb8 _ _ _ (wf_setColourAttr _ _ _ h)
+    · exact wf_setColourAttr _ _ _ h
+
+theorem upd_wf (st : Nat → Pen) (i : Nat) (p : Pen) (h : ∀ i, (st i).WF) (hp : p.WF) : ∀ k, (upd st i p k).WF := by
+  intro k; unfold upd; split
+  · exact hp
+  · exact h k
+
+theorem PenOp.run_wf (sc : Scanf) (st : Nat → Pen) (op : PenOp) (h : ∀ i, (st i).WF) : ∀ i, (op.run sc st i).WF := by
+  cases op with
+  | setBool i a v => exact upd_wf _ _ _ h (wf_setBoolAttr _ _ _ (h _))
+  | setInt i a v => exact upd_wf _ _ _ h (wf_setIntAttr _ _ _ (h _))
+  | setColour i a v => exact upd_wf _ _ _ h (wf_setColourAttr _ _ _ (h _))
+  | setRgb8 i a v => exact upd_wf _ _ _ h (wf_setColourAttrRgb8 _ _ _ (h _))
+  | clearAttr i a => exact upd_wf _ _ _ h (wf_clearAttr _ _ (h _))
+  | clear i => exact upd_wf _ _ _ h (wf_clear _ (h _))
+  | copy d s ow =>
+    simp only [PenOp.run]; split
+    · exact h
+    · exact upd_wf _ _ _ h (wf_copy _ _ _ (h _))
+  | copyAttr d s a =>
+    simp only [PenOp.run]
+    refine upd_wf _ _ _ h ?_
+    split
+    · exact wf_copyAttrSelf _ _ (h _)
+    · exact wf_copyAttr _ _ _ (h _)
+  | clone d s => exact upd_wf _ _ _ h (wf_clone _)
+  | desc i a s => exact upd_wf _ _ _ h (wf_setColourAttrDesc _ _ _ _ (h _))
+
+/-- One operation refines its dictionary meaning. -/
+theorem PenOp.run_refines (sc : Scanf) (st : Nat → Pen) (op : PenOp) (h : ∀ i, (st i).WF)
+    (hno : ¬ op.SelfCopyAttrWithRgb8 st) :
+    (fun i => (op.run sc st i).abs) = op.spec sc (fun i => (st i).abs) := by
+  funext k
+  cases op with
+  | setBool i a v => simp only [PenOp.run, PenOp.spec, upd]; split <;> simp [abs_setBoolAttr]
+  | setInt i a v => simp only [PenOp.run, PenOp.spec, upd]; split <;> simp [abs_setIntAttr']
+  | setColour i a v => simp only [PenOp.run, PenOp.spec, upd]; split <;> simp [abs_setColourAttr']
+  | setRgb8 i a v => simp only [PenOp.run, PenOp.spec, upd]; split <;> simp [abs_setColourAttrRgb8]
+  | clearAttr i a => simp only [PenOp.run, PenOp.spec, upd]; split <;> simp [abs_clearAttr]
+  | clear i => simp only [PenOp.run, PenOp.spec, upd]; split <;> simp [abs_clear]
+  | copy d s ow =>
+    simp only [PenOp.run, PenOp.spec, upd]
+    by_cases hds : d = s
+    · subst hds; simp only [if_true]; split
+      · next hk => subst hk; rw [dict_copy_self]
+      · rfl
+    · simp only [hds, if_false, upd]; split <;> simp [abs_copy _ _ _ (h s)]
+  | copyAttr d s a =>
+    simp only [PenOp.run, PenOp.spec, upd]
+    split
+    · next hk =>
+      by_cases hds : d = s
+      · subst hds
+        have hr : (st d).hasColourAttrRgb8 a = false := by
+          cases hh : (st d).hasColourAttrRgb8 a
+          · rfl
+          · exact absurd ⟨rfl, hh⟩ hno
+        simp [abs_copyAttrSelf _ _ (h d) hr]
+      · simp [hds, abs_copyAttr _ _ _ (h s)]
+    · rfl
+  | clone d s => simp only [PenOp.run, PenOp.spec, upd]; split <;> simp [abs_clone _ (h s)]
+  | desc i a s =>
+    simp only [PenOp.run, PenOp.spec]
+    rw [setColourAttrDesc_eq_parse]
+    cases hp : descParse sc s with
+    | none => simp only [applyParsed, upd]; split <;> simp_all
+    | some r =>
+      obtain ⟨idx, rgb⟩ := r
+      cases rgb with
+      | none => simp only [applyParsed, upd]; split <;> simp [abs_setColourAttr']
+      | some rgb => simp only [applyParsed, upd]; split <;> simp [abs_setColourAttr', abs_setColourAttrRgb8]
+
+def runOps (sc : Scanf) (st : Nat → Pen) : List PenOp → (Nat → Pen)
+  | [] => st
+  | op :: ops => runOps sc (op.run sc st) ops
+
+def specOps (sc : Scanf) (st : Nat → PenDict) : List PenOp → (Nat → PenDict)
+  | [] => st
+  | op :: ops => specOps sc (op.spec sc st) ops
+
+/-- No step of the history is the known trigger. -/
+def NoSelfCopyAttrWithRgb8 (sc : Scanf) (st : Nat → Pen) : List PenOp → Prop
+  | [] => True
+  | op :: ops => ¬ op.SelfCopyAttrWithRgb8 st ∧ NoSelfCopyAttrWithRgb8 sc (op.run sc st) ops
+
+instance (st : Nat → Pen) (op : PenOp) : Decidable (op.SelfCopyAttrWithRgb8 st) := by
+  cases op <;> unfold PenOp.SelfCopyAttrWithRgb8 <;> exact inferInstance
+
+def decNoSelfCopyAttrWithRgb8 (sc : Scanf) : (st : Nat → Pen) → (ops : List PenOp) →
+    Decidable (NoSelfCopyAttrWithRgb8 sc st ops)
+  | _, [] => isTrue trivial
+  | st, op :: ops =>
+    have := decNoSelfCopyAttrWithRgb8 sc (op.run sc st) ops
+    show Decidable (¬ op.SelfCopyAttrWithRgb8 st ∧ NoSelfCopyAttrWithRgb8 sc (op.run sc st) ops) from inferInstance
+
+instance (sc : Scanf) (st : Nat → Pen) (ops : List PenOp) : Decidable (NoSelfCopyAttrWithRgb8 sc st ops) :=
+  decNoSelfCopyAttrWithRgb8 sc st ops
+
+theorem runOps_wf (sc : Scanf) (ops : List PenOp) (st : Nat → Pen) (h : ∀ i, (st i).WF) : ∀ i, (runOps sc st ops i).WF := by
+  induction ops generalizing st with
+  | nil => exact h
+  | cons op ops ih => exact ih _ (PenOp.run_wf sc st op h)
+
+theorem runOps_refines (sc : Scanf) (ops : List PenOp) (st : Nat → Pen) (h : ∀ i, (st i).WF)
+    (hno : NoSelfCopyAttrWithRgb8 sc st ops) :
+    (fun i => (runOps sc st ops i).abs) = specOps sc (fun i => (st i).abs) ops := by
+  induction ops generalizing st with
+  | nil => rfl
+  | cons op ops ih =>
+    simp only [runOps, specOps]
+    rw [ih _ (PenOp.run_wf sc st op h) hno.2, PenOp.run_refines sc st op h hno.1]
+
+end History
+
 end Tickit
